@@ -18,6 +18,16 @@ def _is_var(e, name):
     return isinstance(e, dict) and e.get('k') == 'ref' and e.get('dk') == 'local' and e.get('name') == name
 
 
+def _array_size(e):
+    """`a.size()` of a std::array<T, N> (not a constant expression through a reference before C++23, but N all the same)"""
+    import re
+    if isinstance(e, dict) and e.get('k') == 'call' and e.get('name') == 'size' and not e.get('args'):
+        m = re.match(r'(?:const )?std::array<.*, (\d+)>$', str(e.get('cls', '')))
+        if m:
+            return int(m.group(1))
+    return None
+
+
 def loop_range(func, loop):
     if loop.get('k') != 'for':
         return None
@@ -68,6 +78,8 @@ def loop_range(func, loop):
     if not _is_var(l, name):
         return None
     b = const_value(_strip(r))
+    if b is None:
+        b = _array_size(_strip(r))
     if b is None:
         return None
     if step > 0:
